@@ -1,6 +1,8 @@
 import CalVerif.Spec.MetadataEnc
+import CalVerif.Lemmas.BiffStrings
 /-! Helper lemmas for Props/C16.lean: little-endian fields, string packing, table look-ups. -/
 open Meta MetaEnc
+open Biff (byte le16 le32)
 
 namespace MetaLemmas
 
@@ -93,6 +95,213 @@ theorem xlsVis_lookup (vis : SheetVisible) (reserved : Nat) :
 theorem xlsKind_lookup (kind : SheetType) (dt : Nat) (h : xlsKindCode kind = some dt) :
     dt < 256 ∧ Gen.xlsKindTable.lookup dt = some kind := by
   cases kind <;> simp [xlsKindCode, codeOf, Gen.xlsKindTable] at h <;> subst h <;> decide
+
+/-! ## xls BoundSheet8 -/
+
+theorem parseSheetMetadata_encode (off : Nat) (hoff : off < 4294967296) (vis : SheetVisible) (reserved : Nat)
+    (kind : SheetType) (dt : Nat) (hk : xlsKindCode kind = some dt)
+    (us : List Nat) (hlen : us.length < 256) (wide : Bool) (hunits : ∀ u ∈ us, u < (if wide then 65536 else 256)) :
+    parseSheetMetadata (encodeBoundSheet off (xlsVisCode vis + 64 * reserved) dt us wide) true
+      = .ok (off, ⟨(Biff.decodeUtf16 us).filter (· != 0), kind, vis⟩) := by
+  obtain ⟨hdt, hkl⟩ := xlsKind_lookup kind dt hk
+  unfold parseSheetMetadata encodeBoundSheet
+  have hlen5 : ¬ ((le32 off ++ [byte (xlsVisCode vis + 64 * reserved), byte dt] ++ shortString us wide).length < 5) := by
+    simp [le32]
+  have hlen6 : ¬ ((le32 off ++ [byte (xlsVisCode vis + 64 * reserved), byte dt] ++ shortString us wide).length < 6) := by
+    simp [le32]
+  have hb4 : byteAt (le32 off ++ [byte (xlsVisCode vis + 64 * reserved), byte dt] ++ shortString us wide) 4
+      = (xlsVisCode vis + 64 * reserved) % 256 := by
+    simp [byteAt, le32, byte_toNat]
+  have hb5 : byteAt (le32 off ++ [byte (xlsVisCode vis + 64 * reserved), byte dt] ++ shortString us wide) 5 = dt := by
+    simp [byteAt, le32, byte_toNat]; omega
+  have hdrop : (le32 off ++ [byte (xlsVisCode vis + 64 * reserved), byte dt] ++ shortString us wide).drop 6 = shortString us wide := by
+    simp [le32]
+  have hu32 : Biff.u32 (le32 off ++ [byte (xlsVisCode vis + 64 * reserved), byte dt] ++ shortString us wide) = off := by
+    rw [List.append_assoc]; exact u32_le32 off _ hoff
+  simp only [hlen5, hlen6, if_false, hb4, hb5, xlsVis_lookup, hkl, hdrop, hu32]
+  have := parseShortString_shortString us wide [] hlen hunits
+  rw [List.append_nil] at this
+  rw [this]
+
+
+/-! ## xls globals loop -/
+
+theorem notCont_record (typ : Nat) (data rest : Bytes) (h1 : typ < 65536) (h2 : typ ≠ 0x3C) : Biff.notCont (record typ data ++ rest) := by
+  intro ⟨_, h⟩
+  have : Biff.u16 (record typ data ++ rest) = typ := by
+    unfold record Biff.frameRec; rw [List.append_assoc, List.append_assoc]; exact Biff.u16_recHdr typ _ h1 _
+  omega
+
+theorem nextRecord_record (typ : Nat) (data rest : Bytes) (ht : typ < 65536) (hl : data.length < 65536) (hn : Biff.notCont rest) :
+    Biff.nextRecord (record typ data ++ rest) = some (.ok (⟨typ, data, []⟩, rest)) :=
+  Biff.nextRecord_frameRec typ data [] rest ht hl (by simp) hn
+
+theorem le16_length (n : Nat) : (le16 n).length = 2 := rfl
+theorem le32_length (n : Nat) : (le32 n).length = 4 := rfl
+
+theorem encUnits_length (wide : Bool) (us : List Nat) : (encUnits wide us).length = (if wide then 2 * us.length else us.length) := by
+  cases wide
+  · simp [encUnits]
+  · simp only [encUnits, if_true, length_flatMap_le16]
+
+theorem sheet_payload_length (s : XlsSheet) (h : s.units.length < 256) : s.payload.length < 65536 := by
+  unfold XlsSheet.payload encodeBoundSheet shortString
+  simp only [List.length_append, List.length_cons, le32_length, List.length_nil, encUnits_length]
+  split <;> omega
+
+theorem sheet_kind_lookup (s : XlsSheet) (h : ∃ k, xlsKindCode k = some s.dt) : xlsKindCode s.kind = some s.dt := by
+  obtain ⟨k, hk⟩ := h
+  obtain ⟨_, hl⟩ := xlsKind_lookup k s.dt hk
+  simp only [XlsSheet.kind, hl, Option.getD_some, hk]
+
+theorem step_sheet (nr : Bytes → Nat → Res Text) (pd : Bytes → Res (Option Nat × Text)) (st : XlsSt) (hb : st.biff8 = true)
+    (s : XlsSheet) (hs : s.ok) :
+    xlsStep nr pd st ⟨0x0085, s.payload, []⟩ = .ok (some (applyRec st (.sheet s))) := by
+  obtain ⟨h1, _, h3, h4, h5⟩ := hs
+  have hr := parseSheetMetadata_encode s.offset h1 s.vis s.reserved s.kind s.dt (sheet_kind_lookup s h3) s.units h4 s.wide h5
+  simp [xlsStep, XlsSheet.payload, hb, hr, liftUnit, applyRec, XlsSheet.decoded]
+
+theorem step_date (nr : Bytes → Nat → Res Text) (pd : Bytes → Res (Option Nat × Text)) (st : XlsSt) (v : Nat) (hv : v < 65536) :
+    xlsStep nr pd st ⟨0x0022, le16 v, []⟩ = .ok (some (applyRec st (.date v))) := by
+  have hu : Biff.u16 (le16 v) = v := by
+    have := Biff.u16_le16 v hv []
+    simpa using this
+  simp [xlsStep, hu, applyRec]
+
+theorem step_neutral (nr : Bytes → Nat → Res Text) (pd : Bytes → Res (Option Nat × Text)) (st : XlsSt) (t : Nat) (d : Bytes)
+    (ht : t ∉ interpretedIds) :
+    xlsStep nr pd st ⟨t, d, []⟩ = .ok (some st) := by
+  simp only [interpretedIds, List.mem_cons, List.not_mem_nil, or_false, not_or] at ht
+  obtain ⟨h1, h2, h3, h4, h5, h6, h7, h8, h9, h10, h11, _⟩ := ht
+  simp [xlsStep, h1, h2, h3, h4, h5, h6, h7, h8, h9, h10, h11]
+
+/-- framed record of a `GRec`: type, payload -/
+def grecTyp : GRec → Nat
+  | .sheet _ => 0x0085
+  | .date _ => 0x0022
+  | .neutral t _ => t
+
+def grecData : GRec → Bytes
+  | .sheet s => s.payload
+  | .date v => le16 v
+  | .neutral _ d => d
+
+theorem grec_bytes (r : GRec) : r.bytes = record (grecTyp r) (grecData r) := by
+  cases r <;> rfl
+
+theorem grec_typ_ok (r : GRec) (h : r.ok) : grecTyp r < 65536 ∧ grecTyp r ≠ 0x3C ∧ (grecData r).length < 65536 := by
+  cases r with
+  | sheet s => exact ⟨by simp [grecTyp], by simp [grecTyp], sheet_payload_length s h.2.2.2.1⟩
+  | date v => exact ⟨by simp [grecTyp], by simp [grecTyp], by simp [grecData]⟩
+  | neutral t d =>
+    obtain ⟨h1, h2, h3⟩ := h
+    refine ⟨h1, ?_, h3⟩
+    intro h
+    apply h2
+    have : t = 0x3C := h
+    rw [this]; decide
+
+theorem step_grec (nr : Bytes → Nat → Res Text) (pd : Bytes → Res (Option Nat × Text)) (st : XlsSt) (hb : st.biff8 = true)
+    (r : GRec) (h : r.ok) :
+    xlsStep nr pd st ⟨grecTyp r, grecData r, []⟩ = .ok (some (applyRec st r)) ∧ (applyRec st r).biff8 = true := by
+  cases r with
+  | sheet s => exact ⟨step_sheet nr pd st hb s h, by simp [applyRec, hb]⟩
+  | date v => exact ⟨step_date nr pd st v h, by simp only [applyRec]; split <;> simp [hb]⟩
+  | neutral t d => exact ⟨step_neutral nr pd st t d h.2.1, by simp [applyRec, hb]⟩
+
+theorem notCont_recs (recs : List GRec) (hall : ∀ r ∈ recs, r.ok) (rest : Bytes) (hrest : Biff.notCont rest) :
+    Biff.notCont (recs.flatMap GRec.bytes ++ rest) := by
+  cases recs with
+  | nil => simpa using hrest
+  | cons r rs =>
+    obtain ⟨h1, h2, _⟩ := grec_typ_ok r (hall r (by simp))
+    simp only [List.flatMap_cons, List.append_assoc, grec_bytes r]
+    exact notCont_record _ _ _ h1 h2
+
+theorem globals_recs (nr : Bytes → Nat → Res Text) (pd : Bytes → Res (Option Nat × Text)) :
+    ∀ (recs : List GRec), (∀ r ∈ recs, r.ok) → ∀ (fuel : Nat) (rest : Bytes) (st : XlsSt), Biff.notCont rest → st.biff8 = true →
+      xlsGlobals nr pd (fuel + recs.length) (recs.flatMap GRec.bytes ++ rest) st =
+        xlsGlobals nr pd fuel rest (recs.foldl applyRec st) := by
+  intro recs
+  induction recs with
+  | nil => intro _ fuel rest st _ _; simp
+  | cons r rs ih =>
+    intro hall fuel rest st hrest hb
+    have hr := hall r (by simp)
+    have hrs : ∀ x ∈ rs, x.ok := fun x hx => hall x (by simp [hx])
+    obtain ⟨h1, _, h3⟩ := grec_typ_ok r hr
+    obtain ⟨hstep, hb'⟩ := step_grec nr pd st hb r hr
+    have hfuel : fuel + (r :: rs).length = (fuel + rs.length) + 1 := by simp; omega
+    rw [hfuel, xlsGlobals]
+    simp only [List.flatMap_cons, List.append_assoc, grec_bytes r]
+    rw [nextRecord_record _ _ _ h1 h3 (notCont_recs rs hrs rest hrest)]
+    simp only [hstep]
+    rw [ih hrs fuel rest _ hrest hb']
+    rfl
+
+theorem foldl_applyRec (recs : List GRec) : ∀ (st : XlsSt),
+    recs.foldl applyRec st =
+      { st with sheets := st.sheets ++ (declaredSheets recs).map XlsSheet.decoded, is1904 := st.is1904 || declared1904 recs } := by
+  induction recs with
+  | nil => intro st; simp [declaredSheets, declared1904]
+  | cons r rs ih =>
+    intro st
+    rw [List.foldl_cons, ih]
+    cases r with
+    | sheet s => simp [applyRec, declaredSheets, declared1904, List.append_assoc]
+    | date v =>
+      by_cases hv : v = 1
+      · simp [applyRec, declaredSheets, declared1904, hv]
+      · have : (v == 1) = false := by simp [hv]
+        simp [applyRec, declaredSheets, declared1904, hv, this]
+    | neutral t d => simp [applyRec, declaredSheets, declared1904]
+
+theorem xlsGlobals_encode (nr : Bytes → Nat → Res Text) (pd : Bytes → Res (Option Nat × Text))
+    (recs : List GRec) (hall : ∀ r ∈ recs, r.ok) (tail : Bytes) (htail : Biff.notCont tail) (fuel : Nat) :
+    xlsGlobals nr pd (fuel + recs.length + 2) (encodeGlobals recs tail) {} = .ok (recs.foldl applyRec {}) := by
+  unfold encodeGlobals
+  have hEofNC : Biff.notCont (record 0x000A [] ++ tail) := notCont_record _ _ _ (by decide) (by decide)
+  have hfuel : fuel + recs.length + 2 = (fuel + 1 + recs.length) + 1 := by omega
+  rw [hfuel, xlsGlobals]
+  rw [nextRecord_record 0x0809 (bofData 5) _ (by decide) (by decide) (notCont_recs recs hall _ hEofNC)]
+  have hbof : xlsStep nr pd {} ⟨0x0809, bofData 5, []⟩ = .ok (some {}) := by
+    have : parseBof (bofData 5) = .ok true := by decide
+    simp [xlsStep, this, liftUnit]
+  simp only [hbof]
+  rw [globals_recs nr pd recs hall (fuel + 1) _ _ hEofNC rfl]
+  rw [xlsGlobals, nextRecord_record 0x000A [] tail (by decide) (by decide) htail]
+  simp [xlsStep]
+
+theorem parseWorkbookXlsWith_of_globals (nr : Bytes → Nat → Res Text) (pd : Bytes → Res (Option Nat × Text)) (stream : Bytes)
+    (st : XlsSt) (h : xlsGlobals nr pd (stream.length + 1) stream {} = .ok st) (hoff : ∀ s ∈ st.sheets, s.1 ≤ stream.length) :
+    parseWorkbookXlsWith nr pd stream =
+      .ok ⟨st.sheets.map (·.2), st.names.map (resolveName st.xtis st.sheets), st.is1904⟩ := by
+  unfold parseWorkbookXlsWith
+  rw [h]
+  have hany : (st.sheets.any fun s => decide (stream.length < s.1)) = false := by
+    rw [List.any_eq_false]
+    intro x hx
+    have := hoff x hx
+    simp; omega
+  simp [hany]
+
+theorem encodeGlobals_fuel (recs : List GRec) (tail : Bytes) :
+    ∃ fuel, (encodeGlobals recs tail).length + 1 = fuel + recs.length + 2 := by
+  have h1 : ∀ (rs : List GRec), rs.length ≤ (rs.flatMap GRec.bytes).length := by
+    intro rs
+    induction rs with
+    | nil => simp
+    | cons r rs ih =>
+      have : 0 < r.bytes.length := by
+        rw [grec_bytes]; simp [record, Biff.frameRec, Biff.recHdr, Biff.frameConts]; omega
+      simp only [List.flatMap_cons, List.length_append, List.length_cons]; omega
+  refine ⟨(encodeGlobals recs tail).length + 1 - (recs.length + 2), ?_⟩
+  have := h1 recs
+  have h2 : (encodeGlobals recs tail).length ≥ (recs.flatMap GRec.bytes).length + 20 := by
+    simp [encodeGlobals, record, Biff.frameRec, Biff.recHdr, Biff.frameConts, bofData]
+    omega
+  omega
+
 
 /-! ## xlsx `read_workbook` over events -/
 
